@@ -137,7 +137,7 @@ Definition oracle (c : case) : list nat :=
   tag (res_eqb (list_eqb Bool.eqb) (c_tvc c) (Ok (tvc_walk (c_ncov c) d))) 24 ++
   tag (match c_cmt c with Ok _ => true | Err _ => false end) 25 ++
   (* admid: carry the latest dose event's admid forward (compared when the function applies) *)
-  (if has_admid s || negb (g_labels_range rows) || negb (id_named_ID s) then []
+  (if has_admid s || negb (g_labels_range rows) then []
    else match c_admid c, admid_ref (c_mi c) d with
         | Ok l, Ok ref => tag (list_eqb Z.eqb (map snd l) ref) 26
         | Err _, _ => [26%nat]
@@ -151,10 +151,12 @@ Definition guard_tags (c : case) : list nat :=
   let s := ds_sch d in
   let rows := ds_rows d in
   let an := ann s rows in
-  tag (g_id_named s) 201 ++ tag (g_amt_nonneg rows) 202 ++ tag (g_labels_range rows) 203 ++
+  tag (g_amt_nonneg rows) 202 ++ tag (g_labels_range rows) 203 ++
   tag (g_chrono an) 204 ++ tag (g_tie_one_reset_group an) 205 ++ tag (g_no_obs_between_tied_doses an) 206 ++
-  tag (g_no_tie_after_first_dose an) 207 ++ tag (guard_evid d) 208 ++ tag (guard_obs_count d) 209 ++
-  tag (guard_dose_count d) 210 ++ tag (g_ids_ascending rows) 211 ++ tag (g_addl_nonneg rows) 212 ++
+  tag (guard_evid d) 208 ++
+  (* facts that no longer guard anything (kept for the input distribution): exactly one observation / dose *)
+  tag (negb (Nat.eqb (length (obs_rows s rows)) 1)) 209 ++
+  tag (negb (Nat.eqb (length (filter (fun r => negb (r_amt r =? 0)) rows)) 1)) 210 ++ tag (g_ids_ascending rows) 211 ++ tag (g_addl_nonneg rows) 212 ++
   (* the frame add_time_after_dose works on: chronological per individual / DOSEIDs in order *)
   match tad_frame d with
   | Ok fr =>
